@@ -91,13 +91,14 @@ struct ConcurrentObjectArena {
         pos_(other.pos_.load(std::memory_order_relaxed)),
         allocatedSize_(other.allocatedSize_.load(std::memory_order_relaxed)),
         buffersSize_(other.buffersSize_),
-        buffersPos_(other.buffersPos_) {
+        buffersPos_(other.buffersPos_.load(std::memory_order_relaxed)) {
     static_assert(
         std::is_trivially_copyable<T>::value,
         "ConcurrentObjectArena copy constructor uses memcpy; T must be trivially copyable.");
     T** otherBuffers = other.buffers_.load(std::memory_order_acquire);
     T** newBuffers = new T*[buffersSize_];
-    for (Index i = 0; i < buffersPos_; ++i) {
+    const Index numBuffs = buffersPos_.load(std::memory_order_relaxed);
+    for (Index i = 0; i < numBuffs; ++i) {
       void* ptr = detail::alignedMalloc(kBufferSize * sizeof(T), alignment);
 #if defined(__cpp_exceptions)
       if (ptr == nullptr)
@@ -128,7 +129,8 @@ struct ConcurrentObjectArena {
   ~ConcurrentObjectArena() {
     T** buffers = buffers_.load(std::memory_order_acquire);
 
-    for (Index i = 0; i < buffersPos_; i++)
+    const Index numBuffs = buffersPos_.load(std::memory_order_relaxed);
+    for (Index i = 0; i < numBuffs; i++)
       detail::alignedFree(buffers[i]);
 
     delete[] buffers;
@@ -248,7 +250,9 @@ struct ConcurrentObjectArena {
    * @return The current number of buffers. Note that buffers can be appended concurrently
    **/
   Index numBuffers() const {
-    return buffersPos_;
+    // Acquire pairs with the release store in allocateBuffer(): the buffers counted here have their
+    // table entry written and the table that holds it published.
+    return buffersPos_.load(std::memory_order_acquire);
   }
 
   /**
@@ -314,7 +318,9 @@ struct ConcurrentObjectArena {
     lhs.buffers_.store(rhs_buffers, std::memory_order_release);
 
     swap(lhs.buffersSize_, rhs.buffersSize_);
-    swap(lhs.buffersPos_, rhs.buffersPos_);
+    const Index rhs_buffersPos = rhs.buffersPos_.load(std::memory_order_relaxed);
+    rhs.buffersPos_.store(lhs.buffersPos_.load(std::memory_order_relaxed), std::memory_order_relaxed);
+    lhs.buffersPos_.store(rhs_buffersPos, std::memory_order_relaxed);
     swap(lhs.deleteLater_, rhs.deleteLater_);
   }
 
@@ -326,8 +332,11 @@ struct ConcurrentObjectArena {
       throw std::bad_alloc();
 #endif // __cpp_exceptions
 
-    if (buffersPos_ < buffersSize_) {
-      buffers_.load(std::memory_order_acquire)[buffersPos_++] = static_cast<T*>(ptr);
+    // buffersPos_ is read by numBuffers() without the mutex: it is advanced (release) only after the
+    // new entry is written and the table that holds it is published.
+    const Index pos = buffersPos_.load(std::memory_order_relaxed);
+    if (pos < buffersSize_) {
+      buffers_.load(std::memory_order_acquire)[pos] = static_cast<T*>(ptr);
     } else {
       const Index oldBuffersSize = buffersSize_;
       T** oldBuffers = buffers_.load(std::memory_order_acquire);
@@ -340,9 +349,10 @@ struct ConcurrentObjectArena {
         deleteLater_.push_back(oldBuffers);
       }
 
-      newBuffers[buffersPos_++] = static_cast<T*>(ptr);
+      newBuffers[pos] = static_cast<T*>(ptr);
       buffers_.store(newBuffers, std::memory_order_release);
     }
+    buffersPos_.store(pos + 1, std::memory_order_release);
   }
 
   void constructObjects(const Index beginIndex, const Index endIndex) {
@@ -377,7 +387,7 @@ struct ConcurrentObjectArena {
 
   std::atomic<T**> buffers_;
   Index buffersSize_;
-  Index buffersPos_;
+  std::atomic<Index> buffersPos_;
   std::vector<T**> deleteLater_;
 };
 
